@@ -152,7 +152,7 @@ def tee_cases(draw, tier):
     return {"op": "tee", "items": items, "n": n, "plan": plan,
             "fl": draw(st.sampled_from(["agen", "aclass", "aplain"])),
             "susp": draw(st.integers(1, 2)), "lock_susp": draw(st.booleans()),
-            "nolock": draw(st.sampled_from([False, False, True]))}
+            "nolock": draw(st.sampled_from([False, False, True])), "lock_release_susp": draw(st.booleans())}
 
 
 def run_tee(case, cancel_at):
@@ -160,7 +160,8 @@ def run_tee(case, cancel_at):
 
     ctx = Ctx("a")
     src = make_source(ctx, "s0", mats(case["items"]), {"fl": case["fl"], "susp": case["susp"]}, "a")
-    lock = None if case.get("nolock") else Lock(ctx, "lock", suspend_uncontended=case["lock_susp"])
+    lock = None if case.get("nolock") else Lock(ctx, "lock", suspend_uncontended=case["lock_susp"],
+                                                release_susp=case.get("lock_release_susp", False))
     cancel = Cancel("cancel") if cancel_at else None
 
     async def task():
